@@ -34,7 +34,8 @@ def exhaustive(tier):
 
 PERSONS = ["Donald E. Knuth", "Knuth, Donald E.", "von Beethoven, Ludwig", "{Simon and Schuster}", "Sand", "andrea Anders", "Anderson, and.",
            "\\'Etienne Marc", "Jean~Paul", "{\\'E}douard", "A. {and} B.", "d'and", "Hand And", "\\and X", "X\\ and", "{and}", "Brand", "a", "AND1",
-           "Per Brinch Hansen", "de la Vall{\\'e}e Poussin, Charles", "X,", "jr, Y, Z"]
+           "Per Brinch Hansen", "de la Vall{\\'e}e Poussin, Charles", "X,", "jr, Y, Z",
+           "Johann Strauß", "İbrahim Ağa", "ﬁnn ﬂuß", "Éric Ñandú", "Ǆemal", "ΐota", "李 四", "ŉ", "and ß"]
 SEPS = [" and ", " AND ", " And ", "\nand\t", "  and  ", " and\n", "\tand ", " and and ", " an d ", " and, ", " and~", "~and ", " a\\'nd ", " {and} "]
 
 
